@@ -331,7 +331,18 @@ type c20Spec struct {
 	EmptyData  bool // marshal-only cases: the expected Data is empty
 }
 
+// predicates that do not depend on the case are built once and shared by all cases, lists and helper calls of the
+// process, as a test file's package-level `var errBad = test.ErrorMatch(...)` is (state kept inside a predicate value -
+// a lazily compiled pattern, a report-once flag - shows only then)
+var c20SharedPreds = map[int]test.AssertErrorFunc{
+	3: test.Error("some other text"), 4: test.ErrorHasPrefix("boom "), 5: test.ErrorHasPrefix("zzz"), 7: test.ErrorHasSuffix("zzz"),
+	8: test.ErrorMatch(`^boom \d+$`), 9: test.ErrorMatch(`^nope$`), 10: test.ErrorMatch(`ab(.`),
+}
+
 func c20ErrFunc(s c20Spec) test.AssertErrorFunc {
+	if p, ok := c20SharedPreds[s.ErrKind]; ok && s.ID%2 == 0 {
+		return p
+	}
 	switch s.ErrKind {
 	case 1:
 		return test.AnyError
